@@ -7,6 +7,7 @@ import (
 	"bytes"
 	"fmt"
 	"math/big"
+	"os"
 
 	"filippo.io/edwards25519"
 	"filippo.io/edwards25519/field"
@@ -86,9 +87,21 @@ func pointMatches(p *edwards25519.Point, want ref.Pt) *core.Fail {
 	return nil
 }
 
-func tierN(ctx *core.Ctx, quick, thorough int) int {
-	if ctx.Quick() {
-		return quick
+// Three sizes: smoke (VERIF_SMOKE=1, for development only), quick (the check
+// run on every change) and thorough. Most enumerations are so cheap that the
+// quick tier already uses what was designed as the thorough size; sz gives the
+// thorough tier a larger one where it exists.
+func smoke(ctx *core.Ctx) bool { return ctx.Quick() && os.Getenv("VERIF_SMOKE") != "" }
+
+func sz(ctx *core.Ctx, s, m, l int) int {
+	switch {
+	case smoke(ctx):
+		return s
+	case ctx.Quick():
+		return m
 	}
-	return thorough
+	return l
 }
+
+// tierN: smoke size / normal size (both tiers).
+func tierN(ctx *core.Ctx, small, normal int) int { return sz(ctx, small, normal, normal) }
